@@ -7,6 +7,7 @@
 import PK.Model.Machine
 import PK.Model.Games
 import PK.Model.Analysis
+import PK.Model.Notation
 open PK PK.State
 
 namespace Driver
@@ -360,6 +361,29 @@ partial def loop (T : Tables) (inp out : IO.FS.Stream) (ss : Sess) : IO Unit := 
         out.putStrLn s!"T {h} {pBool su} {e.index} {e.label}"
       out.putStrLn "."
       loop T inp out ss
+  | ["phh", c] =>
+    -- the action lines `from_game_state` writes for the operation log so far
+    let acts := fromLog (c == "1") ss.st.ops.reverse
+    out.putStrLn ("H " ++ "|".intercalate (acts.map fun a => String.ofList a.line))
+    loop T inp out ss
+  | ["parseline", hex] =>
+    (match parseActionLine (unhex hex) with
+    | none => out.putStrLn "A !ValueError"
+    | some a =>
+      let cs (l : List Card) := if l.isEmpty then "-" else Card.reprs l
+      out.putStrLn ("A " ++ (match a with
+        | .dealBoard l => s!"dealBoard {cs l}"
+        | .dealHole p l => s!"dealHole {p} {cs l}"
+        | .standPat p l => s!"standPat {p} {cs l}"
+        | .bringIn p => s!"bringIn {p}"
+        | .fold p => s!"fold {p}"
+        | .call p => s!"call {p}"
+        | .cbr p a => s!"cbr {p} {a}"
+        | .muck p => s!"muck {p}"
+        | .showAll p => s!"showAll {p}"
+        | .showCards p l => s!"showCards {p} {cs l}"
+        | .noop => "noop")))
+    loop T inp out ss
   | ["range", order, hex] =>
     -- `parse_range(text, rank_order=order)`; text as hexadecimal code points separated by `.`
     let ro := if order == "short" then RankOrder.shortDeck else if order == "regular" then RankOrder.regular
